@@ -34,7 +34,7 @@ func checkC02(c *Ctx) {
 	c.Decided = "on every accepting path of VerifyQuorumCert / VerifyTimeoutCert / VerifyAggregateQC: the participant count of the certificate's own signature is compared with the configured quorum size with the right polarity, " +
 		"the signature is verified (Base.Verify / BatchVerify) over the bytes of the referenced block / the claimed view / the per-signer reconstructed timeout messages, and a QC's claimed view equals its block's view; " +
 		"every crypto.Base verifier rejects foreign signature types, unknown signers, (multi-signature schemes) empty and repeated signers, and its verdict depends on every per-signer check; " +
-		"findHighestValidQC returns only a QC that passed VerifyQuorumCert, trying higher views first; signer and verifier use the same bytes-to-sign functions."
+		"findHighestValidQC returns only a QC that passed VerifyQuorumCert, trying higher views first; signer and verifier use the same bytes-to-sign functions. With aggregate QCs enabled and an aggregate attached, VerifyAnyQC accepts only if the aggregate verified and its high QC equals the block's QC (QuorumCert.Equals answers true only for the same view, block hash and signature); the BLS verifiers accept only signatures that passed the subgroup check, which accepts only under order*point == identity."
 	c.NotDec = "cryptographic soundness of ECDSA/Ed25519/BLS12-381 and of the hash; the completeness direction (honestly assembled certificates verify) beyond the writer/reader agreement of C02.8."
 	c.Assume = append(c.Assume, "the three signature primitives are unforgeable and the bls12-381 library implements pairing checks correctly")
 	c.Expect("C02.1", 3)
@@ -844,6 +844,40 @@ func c02FindHighest(c *Ctx) {
 					open = append(open, p.Pos(e.Ret.Pos()))
 				}
 			}
+			if want.what == "the block's QC equals the aggregate's high QC" {
+				// and the other way round: a proposal with an aggregate is refused on the comparison only when it failed
+				// (errors of the verifications themselves are passed on as they are)
+				var wrong []string
+				for _, hf := range helperClosure(p, va, 1) {
+					if hf != va && (hf.Object() == nil || hf.Object().Exported() || !p.ownedByAny(hf, []string{shortName(va)})) {
+						continue // the verifiers it calls have rules of their own
+					}
+					hfl := NewFlow(p, hf)
+					for _, r := range returnsOf(hf) {
+						if !hfl.Reachable(r.Block()) || len(r.Results) == 0 {
+							continue
+						}
+						v := retValue(r, len(r.Results)-1)
+						call, isCall := v.(*ssa.Call)
+						if !isCall || call.Call.StaticCallee() == nil || inModule(funcPkgPath(call.Call.StaticCallee())) || !knownNonNilError(v) {
+							continue // not an error made up here
+						}
+						notEq := func(f Fact) bool { return f.Op == "false" && strings.HasPrefix(f.L, "(hs.QuorumCert).Equals(") }
+						ok := branchDominates(hfl, r, notEq)
+						for f := range hfl.At(r) {
+							if notEq(f) {
+								ok = true
+							}
+						}
+						if !ok {
+							wrong = append(wrong, p.Pos(r.Pos()))
+						}
+					}
+				}
+				c.Check(len(wrong) == 0, "C02.7/aggqc", "VerifyAnyQC: refuses on the comparison only when it failed", p.FuncPos(va),
+					"an error created in VerifyAnyQC (or its private helper) is returned only under !qc.Equals(highQC)",
+					"a proposal is refused at "+join(wrong)+" although the comparison did not fail: with aggregate QCs no proposal is ever accepted")
+			}
 			c.Check(len(open) == 0, "C02.7/aggqc", "VerifyAnyQC: "+want.what, p.FuncPos(va),
 				"no accepting exit is reachable with aggregate QCs enabled and an aggregate attached unless "+want.what,
 				"accepting exit at "+join(open)+" reachable with an attached aggregate QC although not "+want.what+": a leader can justify its proposal with a stale QC (Fast-HotStuff's vote rule trusts the aggregate's high QC)")
@@ -879,6 +913,34 @@ func c02Equality(c *Ctx) {
 		sigOK := both(w, "signature") || trueOf(w, func(k string) bool {
 			return strings.HasPrefix(k, "bytes.Equal(") && strings.Contains(k, "p0.hs.QuorumCert.signature") && strings.Contains(k, "p1.hs.QuorumCert.signature")
 		})
+		if !sigOK {
+			// the comparison of the two signatures may be a private predicate of the package: every way it answers true
+			// compares its two parameters' bytes, or finds them identical (both absent)
+			for _, cs := range callsIn(eq, false, func(cc *ssa.CallCommon) bool {
+				cal := cc.StaticCallee()
+				return cal != nil && cal.Blocks != nil && funcPkgPath(cal) == funcPkgPath(eq) && len(cc.Args) == 2
+			}) {
+				call, isCall := cs.(*ssa.Call)
+				if !isCall || !trueOf(w, is(fl.K.Key(call))) {
+					continue
+				}
+				a0, a1 := fl.K.Key(call.Call.Args[0]), fl.K.Key(call.Call.Args[1])
+				if !(strings.HasSuffix(a0, "QuorumCert.signature") && strings.HasSuffix(a1, "QuorumCert.signature") && a0 != a1) {
+					continue
+				}
+				hfl := NewFlow(p, call.Call.StaticCallee())
+				hw := trueEdges(hfl)
+				okH := len(hw) > 0
+				for _, x := range hw {
+					if !(hasCmp(x, "==", is("p0"), is("p1")) || trueOf(x, func(k string) bool {
+						return strings.HasPrefix(k, "bytes.Equal(") && strings.Contains(k, "ToBytes(p0)") && strings.Contains(k, "ToBytes(p1)")
+					})) {
+						okH = false
+					}
+				}
+				sigOK = sigOK || okH
+			}
+		}
 		if !sigOK {
 			bad = append(bad, "a true answer without comparing the signatures")
 		}
@@ -918,7 +980,9 @@ func c02SubgroupCheck(c *Ctx) {
 		for _, e := range successExits(ffl, 0) {
 			n++
 			if !errNilOf(e.Facts, func(k string) bool { return strings.HasPrefix(k, shortName(sc)+"(") }) &&
-				!branchDominates(ffl, e.Ret, func(f Fact) bool { return f.Op == "==" && oneIsNil(f) && strings.HasPrefix(nonNil(f), shortName(sc)+"(") }) {
+				!branchDominates(ffl, e.Ret, func(f Fact) bool {
+					return f.Op == "==" && oneIsNil(f) && strings.HasPrefix(nonNil(f), shortName(sc)+"(")
+				}) {
 				open = append(open, p.Pos(e.Ret.Pos()))
 			}
 		}
